@@ -34,6 +34,7 @@ type TLCOpt struct {
 	Heap     string            // e.g. "8g"
 	DFS      bool              // depth-first state queue (trace validation)
 	AllowErr bool              // do not treat a TLC error as an infrastructure failure
+	Grep     *regexp.Regexp    // lines matching this are collected in TLCResult.Grepped (whole output)
 }
 
 type TLCResult struct {
@@ -41,6 +42,7 @@ type TLCResult struct {
 	Distinct  int64
 	Depth     int
 	Vectors   int64
+	Grepped   []string // lines matching TLCOpt.Grep
 	Errors    []string // "Error:" lines and what follows
 	Output    []string // non-vector output (tail)
 	OK        bool     // "Model checking completed. No error has been found." or simulation finished without error
@@ -143,6 +145,9 @@ func (c *Ctx) TLC(opt TLCOpt) *TLCResult {
 					opt.OnVec([]byte(s[4:]))
 				}
 			} else {
+				if opt.Grep != nil && len(res.Grepped) < 200 && opt.Grep.MatchString(l) {
+					res.Grepped = append(res.Grepped, l)
+				}
 				if m := reStates.FindStringSubmatch(l); m != nil {
 					res.Generated, _ = strconv.ParseInt(m[1], 10, 64)
 					res.Distinct, _ = strconv.ParseInt(m[2], 10, 64)
